@@ -339,7 +339,18 @@ fn do_eval(fields: &[&str], out: &mut dyn Write) {
             t.to_move = b.to_move.opposite();
             let tw = evaluation::get_evaluation(&t);
             let again = evaluation::get_evaluation(&b);
-            format!("eval {} twin {} again {}", e, tw, again)
+            // the same placement and side with every other field of the record disturbed
+            let mut d = b.clone();
+            d.white_king_location = Point(0, 0);
+            d.black_king_location = Point(11, 11);
+            d.order_heuristic = 12345;
+            d.last_move = Some((Point(2, 2), Point(9, 9)));
+            d.pawn_double_move = None;
+            d.white_king_side_castle = !b.white_king_side_castle;
+            d.black_queen_side_castle = !b.black_queen_side_castle;
+            d.zobrist_key = b.zobrist_key ^ 0x5555_aaaa_5555_aaaa;
+            let other = evaluation::get_evaluation(&d);
+            format!("eval {} twin {} again {} fields {}", e, tw, again, other)
         }
         Err(_) => "eval badfen".to_string(),
     }));
